@@ -144,8 +144,8 @@ def generate(check, rng, tier, run_index):
         case['ext'] = rng.choice(alias[fmt])
     if rng.chance(0.4):
         case['origin'] = rng.choice([[-3.0, -2.0, -5.0], [40.0, -20.0, 7.0], [-0.4, 0.0, -1.2]])
-    if tier == 'thorough' and CAPS[fmt]['live'] and rng.chance(0.04):
-        case['real_kill_at'] = rng.below(len(ops))
+    if CAPS[fmt]['live'] and rng.chance(0.04 if tier == 'thorough' else 0.01):
+        case['real_kill_at'] = rng.below(len(ops))      # stub fidelity: the same history in a child that SIGKILLs itself here
     return case
 
 
